@@ -28,6 +28,13 @@ def labelOverhead (label_len : Int) : Int :=
   else
   ((2 : Int) + label_len)
 
+/-- net.go: Memberlist.encryptionVersion -/
+def encryptionVersion (m_ProtocolVersion : Int) : Int :=
+  if (m_ProtocolVersion = (1 : Int)) then
+  (0 : Int)
+  else
+  (1 : Int)
+
 /-- calls in statement position that the translation dropped (locks, metrics) -/
 def droppedCalls : List String := []
 
